@@ -493,7 +493,14 @@ def replay(ck, data):
     except Exception as e: print(f'{VARIANT[h]}(1): rejected ({type(e).__name__})')
     else: print(f'{VARIANT[h]}(1): built')
   model = parse_trace(ck.drv('arb').batch([model_line(has_en, n, hist)])[0])
-  impl = run_real(has_en, n, hist)
+  many = c.get('many')
+  if many:
+    # the arbiter sits in a generated top with other arbiters: rebuild the whole top under the same pass group
+    rows, _ = run_many_real(ck.workdir, many, many['flow'])
+    impl = rows[many['index']][:len(hist)]
+    print(f"arbiter #{many['index']} of a top with {len(many['spec'])} arbiters (spec [hasEn, nreqs, mux]: {many['spec']}), pass group {many['flow']}")
+  else:
+    impl = run_real(has_en, n, hist)
   orc = Oracle(has_en, n)
   status = 0
   print(f'{VARIANT[has_en]}({n}), {len(hist)} cycles; columns: cycle [reset en reqs] impl(prio grants priority_en next) model(...)')
